@@ -651,6 +651,22 @@ var mutators = []mutator{
 		b.FundingAgreement = b.InitBals.Balances.Clone()
 		return true
 	}},
+	{"more-funds-than-parent-behind-a-small-funding-agreement", "sub", func(rng *rand.Rand, a *arena, p client.ChannelProposal) bool {
+		// the initial balances exceed the parent's funds; the (for sub-channels unused) funding
+		// agreement field names small amounts
+		b := p.Base()
+		cur := a.parent.State()
+		i, j := rng.Intn(len(b.InitBals.Balances)), rng.Intn(2)
+		fa := b.InitBals.Balances.Clone()
+		for x := range fa {
+			for y := range fa[x] {
+				fa[x][y] = big.NewInt(1)
+			}
+		}
+		b.InitBals.Balances[i][j] = new(big.Int).Add(cur.Balances[i][j], big.NewInt(1))
+		b.FundingAgreement = fa
+		return true
+	}},
 	{"parent-of-another-peer", "sub", func(rng *rand.Rand, a *arena, p client.ChannelProposal) bool {
 		// a sub-channel proposal for the victim's channel with the hub, sent by M
 		p.(*client.SubChannelProposalMsg).Parent = a.hubCh.ID()
